@@ -51,6 +51,40 @@ theorem C13_gen_install_uninstall :
       (n.registerApp c l hl f).portMap = Gen.SoftwareRegs.installPortMap n.next (c.port, c.proto) n.portMap) :=
   ⟨C13_gen_uninstall_tables, fun n c l hl f => ⟨(C13_gen_install_tables n c l hl f).1, (C13_gen_install_tables n c l hl f).2.2.1⟩⟩
 
+/-- an object is a Service or an Application, not both (the Python class; holds on every reachable node: uids are handed out once) -/
+def OneKind (n : Node) : Prop := ∀ u, n.findSvc u = none ∨ n.findApp u = none
+
+/-- **`C13_gen_uninstall_method`: the WHOLE method.**  `SoftwareManager.uninstall`, translated statement by statement (guard, pop,
+the `isinstance` branches with their list and route writes — `remove_request` raising when the route is missing —, the two clean-up
+statements, in source order), IS `Node.uninstall` — for every node state in which no object is both a service and an application,
+every name. -/
+theorem C13_gen_uninstall_method (n : Node) (name : String) (hk : OneKind n) :
+    Gen.SoftwareRegs.uninstallMethod n name = n.uninstall name := by
+  unfold Gen.SoftwareRegs.uninstallMethod Node.uninstall
+  cases hd : dget name n.software with
+  | none => simp [dhas, hd]
+  | some u =>
+    have hdh : dhas name n.software = true := by simp [dhas, hd]
+    simp only [hdh, Bool.not_true, Bool.false_eq_true, if_false]
+    rcases hk u with hs | ha
+    · cases ha' : n.findApp u with
+      | none => simp [hs, ha']
+      | some i => cases hr : dhas name n.appRoutes <;> simp [hs, ha', hr]
+    · cases hs' : n.findSvc u with
+      | none => simp [hs', ha]
+      | some i => cases hr : dhas name n.svcRoutes <;> simp [hs', ha, hr]
+
+/-- non-vacuity of `OneKind`: it holds initially and the translated method really removes (evaluated: dns-client uninstalled) -/
+example : OneKind ({} : Node) := fun _ => Or.inl rfl
+example :
+    let c : Cls := { cid := "DNSClient", name := "dns-client", port := 53, proto := 1 }
+    let n := ({} : Node).run [.installSvc c true [] .good 2]
+    (Gen.SoftwareRegs.uninstallMethod n "dns-client").map (·.software) = some [] ∧
+    (Gen.SoftwareRegs.uninstallMethod n "dns-client").map (·.services) = some [] ∧
+    (Gen.SoftwareRegs.uninstallMethod n "dns-client").map (·.svcRoutes) = some [] ∧
+    (Gen.SoftwareRegs.uninstallMethod n "dns-client").map (·.portMap) = some [] ∧
+    (Gen.SoftwareRegs.uninstallMethod n "dns-client").map (·.classMap) = some [] := by decide
+
 /-! ### programs sharing a (port, protocol) key -/
 
 theorem dget_dset_self {κ ν} [DecidableEq κ] (k : κ) (v : ν) (l : List (κ × ν)) : dget k (dset k v l) = some v := by
